@@ -302,31 +302,34 @@ func (b Branch) CopyEmpty() *Branch {
 	}
 }
 
+// IntersectHash returns the hash of the last header that is in the ancestry of both branches. The
+// branches can be parent and child, siblings, or more distant relatives.
 func (b *Branch) IntersectHash(other *Branch) *bitcoin.Hash32 {
-	current := b
-	for {
-		if current.parent == nil {
-			break
-		}
-
-		if current.parent == other {
-			return &current.firstHeader.PrevBlock
-		}
-
-		current = current.parent
+	type branchLimit struct {
+		height int             // height of the last header of the branch that is in the ancestry
+		hash   *bitcoin.Hash32 // hash of that header
 	}
 
-	current = other
-	for {
-		if current.parent == nil {
-			break
+	// Find the last header of each ancestor branch of b, including b, that is in b's ancestry.
+	limits := make(map[*Branch]branchLimit)
+	limit := branchLimit{height: b.Height(), hash: &b.Last().Hash}
+	for current := b; current != nil; current = current.parent {
+		limits[current] = limit
+		limit = branchLimit{height: current.parentHeight, hash: &current.firstHeader.PrevBlock}
+	}
+
+	// Find the first ancestor branch of other, including other, that is also an ancestor of b. The
+	// intersect is the lower of the two headers where the ancestries leave that branch.
+	limit = branchLimit{height: other.Height(), hash: &other.Last().Hash}
+	for current := other; current != nil; current = current.parent {
+		if bLimit, exists := limits[current]; exists {
+			if bLimit.height < limit.height {
+				return bLimit.hash
+			}
+			return limit.hash
 		}
 
-		if current.parent == b {
-			return &current.firstHeader.PrevBlock
-		}
-
-		current = current.parent
+		limit = branchLimit{height: current.parentHeight, hash: &current.firstHeader.PrevBlock}
 	}
 
 	return nil
